@@ -30,8 +30,11 @@ CONSTANTS
                      \* "anyroot": every live root is valid without accounting (pinned code, finding F9)
     CanonRule,       \* "guarded": amounts with supplementary >= 10^18 are refused where transactions enter the
                      \* ledger (repaired code); "none": nothing checks it (pinned code, finding F7b)
-    CkSelf           \* "both": a checkpointed self-transfer counts on both sides (repaired code);
+    CkSelf,          \* "both": a checkpointed self-transfer counts on both sides (repaired code);
                      \* "incomeonly": its outflow is lost (pinned code, finding F8)
+    NoTipRule        \* "error": a proposal on a ledger without a valid tip is refused (repaired code);
+                     \* "panic": the nil test after the second look at the tips is inverted and the proposal
+                     \* dereferences a nil tip (pinned code, finding F18)
 
 VARIABLES book, vtx, inflight
 
@@ -170,11 +173,18 @@ ProposeCommitOutcomes(b, n, t, id) ==
                   b |-> [p1.b EXCEPT !.live = @ \cup {id},
                                      !.edges = @ \cup {<<nv.l, id>>, <<nv.r, id>>},
                                      !.index = [@ EXCEPT ![t.id] = id]]]}
-      ELSE \* second pass; the code's nil test is inverted: finding a tip now is an error
-           \* (reachable only from an empty tip snapshot)
-           {LET p2 == Pass(p1.b, ord2, <<>>, FALSE) IN
-              [res |-> IF p2.bad THEN "tipinvalid" ELSE IF p2.sel # <<>> THEN "unexpected" ELSE "panic",
-               b |-> p2.b, new |-> <<>>]
+      ELSE \* no tip in the first snapshot: the tips are looked at once more
+           UNION {LET p2 == Pass(p1.b, ord2, <<>>, FALSE) IN
+              IF p2.bad THEN {[res |-> "tipinvalid", b |-> p2.b, new |-> <<>>]}
+              ELSE IF NoTipRule = "panic"
+              THEN {[res |-> IF p2.sel # <<>> THEN "unexpected" ELSE "panic", b |-> p2.b, new |-> <<>>]}
+              ELSE IF p2.sel = <<>> \/ p2.b.index[t.id] # NoV
+              THEN {[res |-> "unexpected", b |-> p2.b, new |-> <<>>]}
+              ELSE LET nv == NewLeaf(n, t, p2.sel) IN
+                   {[res |-> "ok", new |-> <<nv>>,
+                     b |-> [p2.b EXCEPT !.live = @ \cup {id},
+                                        !.edges = @ \cup {<<nv.l, id>>, <<nv.r, id>>},
+                                        !.index = [@ EXCEPT ![t.id] = id]]]}
             : ord2 \in SetToSeqs(TipsOf(p1.b))}
       : ord \in SetToSeqs(TipsOf(b))}
 
